@@ -201,6 +201,7 @@ def run(ctx):
     looked_up_types_may_lack_cpptype(ctx)
     nullable_array_bounds(ctx)
     scopes_do_not_contain_themselves(ctx)
+    scope_struct_type_is_nullable(ctx)
     containment_recursion(ctx)
     construction_stacks(ctx)
     lexer_restore_order(ctx)
@@ -1419,3 +1420,53 @@ def scopes_do_not_contain_themselves(ctx):
         ctx.ob("R15.20", "yyparse|add_declaration(%s)|not-an-enclosing-class" % _norm(show(a)), ok, "src/cppparser/cppBison.yxx (generated line %s)" % f.loc(c).split(":")[-1], why)
     ctx.floor("R15.20", "add_declaration calls in the generated parser", n_all, 25)
     ctx.floor("R15.20", "add_declaration calls handing over a value-stack declaration", n, 1)
+
+
+STRUCT_TYPE_EXEMPT = {
+    "CPPStructType::instantiate": "the scope is the result of _scope->instantiate() of a class's own scope: CPPScope::instantiate returns this scope or a "
+                                  "copy made by copy_substitute_decl, both of which carry the struct type (read and confirmed)",
+}
+
+
+def scope_struct_type_is_nullable(ctx):
+    """R15.21: CPPScope::get_struct_type() is null for every scope that is not a class body (namespaces, the global scope,
+    function and template scopes).  Its result may be dereferenced only behind a test that the same expression is not
+    null.  (F-C15q: `namespace Foo { struct Foo {}; } Foo::Foo f;` - valid C++ - SIGSEGV in find_symbol.)"""
+    db = ctx.db
+    ctx.rule("R15.21", "X->get_struct_type()->... is reached only behind `X->get_struct_type() != nullptr` (same X), except where X provably is a class's scope")
+    n = 0
+    for f in db.functions:
+        if "bison" in f.file or not any(d in f.file for d in ("/cppparser/", "/interrogate/")):
+            continue
+        for x in f.walk():
+            b = None
+            if x.get("k") == "mem" and x.get("arrow"):
+                b = strip_casts(peel(x.get("b")))
+            elif x.get("k") == "call" and "this" in x and x.get("arrow", True):
+                b = strip_casts(peel(x["this"]))
+            if not (b is not None and b.get("k") == "call" and b.get("f") == "CPPScope::get_struct_type"):
+                continue
+            n += 1
+            key = _norm(show(b))
+            inst = "%s|%s" % (f.name, _norm(show(x))[:60])
+            if f.name in STRUCT_TYPE_EXEMPT:
+                ctx.ob("R15.21", inst + "|exception", True, f.loc(x), "reasoned exception: " + STRUCT_TYPE_EXEMPT[f.name])
+                continue
+
+            def nonnull(atom, truth, key=key):
+                c = G.cmp_atom(atom)
+                if c:
+                    op, u, v = c
+                    if not truth:
+                        op = G.NEG[op]
+                    for p, q in ((u, v), (v, u)):
+                        pp = strip_casts(peel(p)) if p is not None else None
+                        if pp is not None and pp.get("k") == "call" and pp.get("f") == "CPPScope::get_struct_type" and _norm(show(pp)) == key \
+                                and q is not None and (strip_casts(q) or {}).get("k") == "nullp":
+                            return op == "!="
+                    return False
+                a = strip_casts(peel(atom)) if atom is not None else None
+                return a is not None and a.get("k") == "call" and a.get("f") == "CPPScope::get_struct_type" and _norm(show(a)) == key and truth
+            ok = G.gated(f, x, G.edges_where(f, nonnull))
+            ctx.ob("R15.21", inst, ok, f.loc(x), "`%s` is %sbehind a test that %s is not null" % (show(x)[:60], "" if ok else "NOT ", key))
+    ctx.floor("R15.21", "dereferences of a get_struct_type() result", n, 3)
